@@ -300,6 +300,12 @@ func (r *Route) weighTargets() {
 		usedSlots += n
 	}
 
+	// without a usable slot there is nothing to distribute
+	if usedSlots <= 0 {
+		r.wTargets = nil
+		return
+	}
+
 	sort.Sort(slots)
 	targets := make([]*Target, usedSlots)
 	for _, s := range slots {
